@@ -33,7 +33,8 @@ KERNELS = ["transform_dynmat_to_fc", "perm_trans_symmetrize_fc", "perm_trans_sym
            "thermal_properties", "distribute_fc2", "compute_permutation", "gsv_set_smallest_vectors_sparse",
            "gsv_set_smallest_vectors_dense", "tetrahedra_relative_grid_address", "all_tetrahedra_relative_grid_address",
            "tetrahedra_integration_weight", "tetrahedra_integration_weight_at_omegas", "tetrahedra_frequencies", "tetrahedron_method_dos"]
-REQUIRED_CLASSES = {"threads": ["k:" + k for k in KERNELS]}
+REQUIRED_CLASSES = {"threads": ["k:" + k for k in KERNELS],
+                    "reference": ["ref:" + k for k in KERNELS if k != "tetrahedra_integration_weight_at_omegas"]}
 
 
 @st.composite
@@ -311,23 +312,6 @@ def ref_compute_permutation(args):
     return ({0: out} if found else {}), 0, found
 
 
-def ref_distribute_fc2(args):
-    fc2, atom_list, fc_indices, r_carts, perms, map_atoms, map_syms = args
-    out = np.array(fc2, copy=True)
-    # inverse permutation table, as documented in the C source: atom_todo -> atom_done via symmetry map_syms
-    for i, i_todo in enumerate(atom_list):
-        i_done = map_atoms[i_todo]
-        if i_done == i_todo:
-            continue
-        sym = map_syms[i_todo]
-        R = r_carts[sym]
-        p = perms[sym]
-        for j in range(out.shape[1]):
-            # fc[todo, j] = R^T fc[done, p[j]] R
-            out[fc_indices[i], j] = R.T @ fc2[fc_indices[list(atom_list).index(i_done)] if i_done in list(atom_list) else i_done, p[j]] @ R
-    return {0: out}, 1e-8
-
-
 def ref_tetrahedra_frequencies(args):
     ft, gps, mesh, ga, gp_ir, rel, freqs = args
     out = np.array(ft, copy=True)
@@ -400,6 +384,19 @@ def ref_gsv(name, args, after):
     return err
 
 
+def _krefs():
+    from oracles import kernels as K
+
+    return {"dynamical_matrices_with_dd_openmp_over_qpoints": K.ref_dynamical_matrices, "recip_dipole_dipole": K.ref_recip_dipole_dipole,
+            "recip_dipole_dipole_q0": K.ref_recip_dipole_dipole_q0, "derivative_dynmat": K.ref_derivative_dynmat,
+            "transform_dynmat_to_fc": K.ref_transform_dynmat_to_fc, "perm_trans_symmetrize_fc": K.ref_perm_trans_symmetrize_fc,
+            "perm_trans_symmetrize_compact_fc": K.ref_perm_trans_symmetrize_compact_fc, "transpose_compact_fc": K.ref_transpose_compact_fc,
+            "distribute_fc2": K.ref_distribute_fc2}
+
+
+KREFS = _krefs()
+
+
 def run_reference(spec):
     from vlib.recorder import Recorder
 
@@ -411,7 +408,7 @@ def run_reference(spec):
     checked = 0
     for r in rec.records:
         name, args, after = r["name"], r["args"], r["after"]
-        got = None
+        got, floor = None, 0.0
         if name == "thermal_properties":
             want, tol = ref_thermal_properties(args)
         elif name == "compute_permutation":
@@ -465,12 +462,27 @@ def run_reference(spec):
             checked += 1
             classes.append("ref:" + name)
             continue
+        elif name in KREFS:
+            res = KREFS[name](args)
+            if res is None:
+                classes.append("ref_skipped:" + name)
+                continue
+            want, tol = res[0], res[1]
+            floor = res[2] if len(res) > 2 else 0.0
         else:
             continue
         for i, w in want.items():
-            sc = max(float(np.abs(w).max()) if w.size else 0.0, 1e-300)
-            d = float(np.abs(after[i].astype(float) - w.astype(float)).max() / sc) if w.size else 0.0
-            if not d <= tol:
+            got_i = after[i]
+            if np.asarray(w).dtype.kind == "c" or got_i.dtype.kind == "c":
+                g = got_i.reshape(-1) if got_i.dtype.kind == "c" else np.ascontiguousarray(got_i, dtype="double").reshape(-1).view("c16")
+                wv = np.asarray(w, dtype=complex).reshape(-1)
+            else:
+                g, wv = got_i.astype(float).reshape(-1), np.asarray(w, dtype=float).reshape(-1)
+            if g.shape != wv.shape:
+                return Out(ok=False, msg="kernel %s: output argument %d has %d elements, reference %d" % (name, i, g.size, wv.size))
+            sc = max(float(np.abs(wv).max()) if wv.size else 0.0, floor, 1e-300)
+            d = float(np.abs(g - wv).max() / sc) if wv.size else 0.0
+            if not d <= max(tol, 0.0) and not (tol == 0.0 and d == 0.0):
                 return Out(ok=False, msg="kernel %s: output argument %d differs from the reference transcription: rel %.3e" % (name, i, d))
         checked += 1
         classes.append("ref:" + name)
@@ -488,5 +500,6 @@ SUBCHECKS = [
         what="recorded calls replayed in the serial build (equal to 1e-13) and in the ASan+UBSan build (no report, equal results)"),
     Sub("reference", run=run_reference, strategy=scen_specs, examples={"quick": 40, "thorough": 1000}, shards={"quick": 4, "thorough": 12},
         builds=["omp", "serial"], budget={"quick": 120, "thorough": 2400},
-        what="kernels vs numpy/Python transcriptions: thermal_properties, compute_permutation, tetrahedra_frequencies, tetrahedron_method_dos, integration weight, relative grid addresses"),
+        what="every kernel vs an independent statement of its semantics (oracles/kernels.py vectorised formulas, C05 image enumeration, C11 divided differences, "
+             "4th-order difference quotient for the derivative): all 19 kernels except integration_weight_at_omegas (covered through tetrahedron_method_dos and C11)"),
 ]
